@@ -38,6 +38,7 @@ func (core *JApiCore) processInclude(keyword *scanner.Lexeme) *jerr.JApiError {
 		return japiErrorForLexeme(keyword, err.Error())
 	}
 	core.scanner = scanner.NewJApiScanner(file)
+	core.includeExplicitContextDepths = append(core.includeExplicitContextDepths, core.explicitContextDepth())
 
 	return nil
 }
